@@ -1155,6 +1155,13 @@ def build(tier='quick', seed=0):
     nostd.append(decl('any', 'alloc::vec::Vec<T>', generics='<T>', validators=[V('predicate', '|v| !v.is_empty()', form='closure')],
                       derives=['Debug', 'Clone', 'PartialEq', 'AsRef', 'Deref', 'Into', 'IntoIterator', 'TryFrom', 'Serialize', 'Deserialize'], tags=['nostd']))
     nostd.append(decl('any', 'alloc::vec::Vec<u8>', derives=['Debug', 'Clone', 'From', 'IntoIterator', 'Arbitrary', 'Serialize', 'Deserialize'], tags=['nostd']))
+    # "other" inner types that merely mention str / String
+    nostd.append(decl('any', "&'a str", generics="<'a>", validators=[V('predicate', '|s| !s.is_empty()', form='closure')],
+                      derives=['Debug', 'Clone', 'Copy', 'PartialEq', 'Eq', 'AsRef', 'Deref', 'Into', 'Display', 'TryFrom'], tags=['nostd']))
+    nostd.append(decl('any', "Option<&'static str>", derives=['Debug', 'Clone', 'Copy', 'PartialEq', 'AsRef', 'Into', 'From'], tags=['nostd']))
+    nostd.append(decl('any', "alloc::borrow::Cow<'a, str>", generics="<'a>", derives=['Debug', 'Clone', 'PartialEq', 'AsRef', 'Deref', 'Into', 'From'], tags=['nostd']))
+    nostd.append(decl('any', 'alloc::vec::Vec<alloc::string::String>', sanitizers=[S('with', '|mut v| { v.sort(); v }', 'closure')],
+                      derives=['Debug', 'Clone', 'PartialEq', 'AsRef', 'Deref', 'Into', 'From'], tags=['nostd']))
     nostd.append(decl('any', 'Point', custom={'with_text': 'check_point', 'form': 'path', 'callee': 'check_point', 'error': 'MyErr'},
                       derives=['Debug', 'TryFrom', 'FromStr'], tags=['nostd']))
 
